@@ -158,6 +158,7 @@ class Machine:
         self.quiet = {}   # visible intrinsic -> predicate(m, alt, args): may run without a scheduling point
         self.models = []
         self.deadline = None
+        self.sequential = False
         self.lit_cache = {}
         self.nlit = 0
         self.lazy_split = bool(__import__("os").environ.get("GOBMC_LAZY"))
@@ -1776,6 +1777,11 @@ def dispatch_call(m, alt, fr, ins, name, args, fv, work):
             qv = m.quiet.get(name)
             if qv is not None and qv(m, alt, args):
                 vis = False
+            elif m.sequential and name not in ("$verifMerge", "$verifQuiesce") and not (type(name) is str and name.endswith(("verifMerge", "verifQuiesce"))):
+                # single-threaded scenario: a synchronisation operation that cannot block is an ordinary instruction
+                en = m.enabled.get(name)
+                if en is None or en(m, alt, args) is True:
+                    vis = False
         if vis:
             if not alt.resume:
                 alt.info = (name, args)
@@ -1824,6 +1830,10 @@ def invoke_deferred_norm(m, alt, fr, d):
             qv = m.quiet.get(name)
             if qv is not None and qv(m, alt, args):
                 vis = False
+            elif m.sequential:
+                en = m.enabled.get(name)
+                if en is None or en(m, alt, args) is True:
+                    vis = False
         if vis:
             if not alt.resume:
                 fr.defers.append(d)
@@ -2012,6 +2022,8 @@ def i_go(m, alt, fr, ins, work):
     if call["mode"] == "builtin":
         raise Unsupported("go builtin")
     name, args, fv = m.resolve_callee(alt, fr, call, work)
+    if m.sequential:
+        raise Unsupported("a scenario declared sequential started a goroutine")
     site = ("go", fr.fn.name, fr.blk, fr.idx)
     n = alt.nalloc.get(site, 0) + 1
     alt.nalloc[site] = n
@@ -2124,7 +2136,22 @@ def do_ack(m, alt, ch):
     m.hset(alt, ch.obj, (cap, buf, closed, False))
 
 
+def _seq_ready(m, alt, fr, ins, chan_op, send):
+    """single-threaded scenario: a channel operation that can certainly complete at once needs no scheduling point"""
+    ch = m.ev(alt, fr, chan_op)
+    if type(ch) is Union or ch is None:
+        return False
+    cap, buf, closed, busy = chan_state(m, alt, ch)
+    if type(buf) is Union or closed is not False:
+        return False
+    if send:
+        return cap > 0 and len(buf) < cap
+    return len(buf) > 0
+
+
 def i_send(m, alt, fr, ins, work):
+    if not alt.resume and m.sequential and alt.ack is None and _seq_ready(m, alt, fr, ins, ins["chan"], True):
+        alt.resume = True
     if not alt.resume:
         alt.info = None
         return PARK
@@ -2146,6 +2173,8 @@ def i_send(m, alt, fr, ins, work):
 
 
 def i_recv(m, alt, fr, ins, work):
+    if not alt.resume and m.sequential and _seq_ready(m, alt, fr, ins, ins["x"], False):
+        alt.resume = True
     if not alt.resume:
         alt.info = None
         return PARK
